@@ -92,8 +92,9 @@ Lose(m) ==
   /\ last' = [op |-> "lose", n |-> m.to, b |-> m.b]
   /\ UNCHANGED <<now, st, recv>>
 
-\* memberlist push/pull: each side merges the other's full state
-PushPull(a, b) ==
+\* memberlist push/pull: each side merges the other's full state; big: the states exceed half a
+\* gossip packet (a handful of silences do) and are merged without being gossiped on
+PushPull(a, b, big) ==
   /\ a # b
   /\ LET A == {st[a][x] : x \in DOMAIN st[a]}
          B == {st[b][x] : x \in DOMAIN st[b]}
@@ -101,8 +102,8 @@ PushPull(a, b) ==
          cb == {e \in A : Accepts(st[b], e, now)}
      IN /\ st' = [st EXCEPT ![a] = MergeBatch(st[a], B, now), ![b] = MergeBatch(st[b], A, now)]
         /\ recv' = [recv EXCEPT ![a] = @ \cup B, ![b] = @ \cup A]
-        /\ net' = net \cup (IF ca # {} THEN Send(a, B) ELSE {}) \cup (IF cb # {} THEN Send(b, A) ELSE {})
-        /\ last' = [op |-> "pushpull", a |-> a, b |-> b, ca |-> Cardinality(ca), cb |-> Cardinality(cb)]
+        /\ net' = net \cup (IF ca # {} /\ ~big THEN Send(a, B) ELSE {}) \cup (IF cb # {} /\ ~big THEN Send(b, A) ELSE {})
+        /\ last' = [op |-> "pushpull", a |-> a, b |-> b, big |-> big, ca |-> Cardinality(ca), cb |-> Cardinality(cb)]
   /\ UNCHANGED now
 
 GC(n) ==
@@ -118,7 +119,7 @@ Tick == /\ now < MaxTime
 
 Next == \/ \E n \in Nodes, id \in Ids : Create(n, id) \/ Extend(n, id) \/ Expire(n, id)
         \/ \E m \in net : Deliver(m, FALSE) \/ Deliver(m, TRUE) \/ Lose(m)
-        \/ \E a, b \in Nodes : PushPull(a, b)
+        \/ \E a, b \in Nodes, big \in BOOLEAN : PushPull(a, b, big)
         \/ \E n \in Nodes : GC(n)
         \/ Tick
 
